@@ -272,7 +272,7 @@ func c04RandomTypes(c *Ctx) {
 				// with a visible random map order compare modulo member order (half of the time: only single-entry maps, strict comparison)
 				f.MultiEntryMaps = set.deterministic || r.IntN(2) == 0
 				f.NoOmit = r.IntN(3) != 0 // value equality needs types without omit options: make them the majority
-				gt := GenType(r, f)
+				gt := GenValType(r, f)
 				if gt == nil {
 					c.Hit("reflect-refused-type")
 					continue
